@@ -54,12 +54,12 @@ Definition spec_ok (pl : list aplan) (cancel strict : bool) (o : obs) : bool :=
     if cancel then (cls =? 2) && (attempts =? 1)
     else match first_in_time pl 1 with
          | Some (k, a) => (cls =? 0) && (attempts =? k) && (patt =? k) && (mine =? 1) && kind_allowed a kind
-         | None => (cls =? 1) && (attempts =? budget)
+         | None => (cls =? 1) && (1 <=? attempts) && (attempts <=? budget)
          end
   else
     (* latency around the timeout: either outcome is legal, but the correlation and the budget are not negotiable *)
     ((cls =? 0) && (patt =? attempts) && (mine =? 1) && ((kind =? 1) || (kind =? 3)) && (1 <=? attempts) && (attempts <=? budget))
-    || ((cls =? 1) && (attempts =? budget)).
+    || ((cls =? 1) && (1 <=? attempts) && (attempts <=? budget)).
 
 Definition check_call (c : c17_case) : N :=
   let '(pl, cancel, strict, o, evs) := c in
